@@ -1,7 +1,7 @@
 #!/bin/sh
 # try_seed.sh <ID> <X> [tier] : applies a seeded change to /repo, runs the check, and undoes it straight afterwards.
 ID=$1; X=$2; T=${3:-quick}
-D=/verif/seeded/$ID/$X; [ -f $D/patch.diff ] || D=/tmp/wt/$ID/_seed/$X
+D=/verif/seeded/$ID/$X; [ -f $D/patch.diff ] || D=${WT:-/tmp/wt}/$ID/_seed/$X
 cd /repo && git apply $D/patch.diff || { echo "patch does not apply"; exit 3; }
 cd /verif && ./check $ID $T > /tmp/try_${ID}_${X}.log 2>&1; RC=$?
 git -C /repo checkout -- .
